@@ -174,10 +174,10 @@ def run_call(m):
         f, p = tsa.periodogram_csd(x, Fs=Fs, NFFT=nfft, sides=m['sides'])
         return f, np.abs(p[0, 0])
     if name.startswith('multi_taper_psd/'):
-        f, p, _ = tsa.multi_taper_psd(x, Fs=Fs, NFFT=nfft, sides=m['sides'], jackknife=False, adaptive=False, NW=m.get('NW', 2))
+        f, p, _ = tsa.multi_taper_psd(x, Fs=Fs, NFFT=nfft, sides=m['sides'], jackknife=False, adaptive=False, NW=m.get('NW', 1))
         return f, p[0]
     if name.startswith('multi_taper_csd/'):
-        f, p = tsa.multi_taper_csd(x, Fs=Fs, NFFT=nfft, sides=m['sides'], adaptive=False, NW=m.get('NW', 2))
+        f, p = tsa.multi_taper_csd(x, Fs=Fs, NFFT=nfft, sides=m['sides'], adaptive=False, NW=m.get('NW', 1))
         return f, np.abs(p[0, 0])
     if name == 'get_freqs':
         return utils.get_freqs(Fs, N), None
@@ -193,7 +193,7 @@ def run_call(m):
         return f, None
     if name == 'cache_fft':
         f, c = tsa.cache_fft(x, [(0, 1)], lb=lb, ub=ub, method={'this_method': 'welch', 'NFFT': N, 'Fs': Fs, 'n_overlap': N // 2})
-        return f, None
+        return f, None, int(np.asarray(c['FFT_slices'][0]).shape[-1])
     if name == 'correlation_spectrum':
         f, c = tsa.correlation_spectrum(x[0], x[1], Fs=Fs)
         return f, None
@@ -249,6 +249,8 @@ def model_line(m):
         return 'C05 keep %s %s %d %s %s' % (site, Fs, N, m.get('lb') or '0', m.get('ub') or 'none')
     if site is None:
         return 'C05 true1 %s %d' % (Fs, N)                    # mlab contract
+    if m['call'] == 'cache_fft' and (m.get('lb') is not None or m.get('ub') is not None):
+        return 'C05 ret cache_fft %s %d %s %s' % (Fs, N, m.get('lb') or '0', m.get('ub') or 'none')
     if m['call'] in BANDED and (m.get('lb') is not None or m.get('ub') is not None):
         return 'C05 band %s %s %d %s %s' % (site, Fs, N, m.get('lb') or '0', m.get('ub') or 'none')
     return 'C05 grid %s %s %d' % (site, Fs, N)
@@ -291,8 +293,11 @@ def judge(m, res):
     out = []
     if isinstance(res, str):
         return [(pre + '/raises', '%s raised %s for Fs=%r N=%d' % (name, res, x2f(m['Fs']), m['N']))]
-    f, spec = res
+    f, spec = res[0], res[1]
     want = true_grid(m)
+    if len(res) > 2 and res[2] != len(want):
+        out.append((pre + '/band-width', '%s caches %d bins, %d bins have lb <= k*Fs/N <= ub (Fs=%s N=%d lb=%s ub=%s)' % (
+            name, res[2], len(want), fs_true(m), m['N'], opt(m, 'lb'), opt(m, 'ub'))))
     if kind == 'keep':
         if list(f) != want:
             out.append((pre + '/band', '%s keeps bins %s, the bins with lb <= k*Fs/N <= ub are %s (Fs=%s N=%d lb=%s ub=%s)' % (
@@ -305,13 +310,17 @@ def judge(m, res):
         out.append(('%s/%s' % (pre, sym), '%s returns %d frequencies %s, expected %d: %s (Fs=%s N=%d lb=%s ub=%s)' % (
             name, len(fl), fl[:6], len(want), [float(q) for q in want[:6]], fs_true(m), m['N'], opt(m, 'lb'), opt(m, 'ub'))))
     elif not close4(fl, want, cancel=(kind == 'shift')):
-        bad = [i for i, (a, q) in enumerate(zip(fl, want)) if abs(Fr(a) - q) > Fr(4 * ulp(max(abs(a), abs(float(q)), ulp(1.0) * 0 + 0.0)))]
+        bad = [i for i, (a, q) in enumerate(zip(fl, want)) if abs(Fr(a) - q) > Fr(4 * ulp(max(abs(a), abs(float(q)))))]
         i = bad[0] if bad else 0
         sym = 'grid'
         if kind == 'freqz':
             sym = 'nyquist-included'
         elif name.startswith('get_spectra/') and 'welch' not in name or name.startswith('CoherenceAnalyzer.frequencies/') and 'welch' not in name:
-            sym = 'hz-rescaled-twice' if abs(fl[-1] - float(want[-1]) * float(fs_true(m)) / (2 * math.pi)) <= 1e-9 * abs(fl[-1]) else 'grid'
+            c = float(fs_true(m)) / (2 * math.pi)
+            rr = [a / float(q) / c for a, q in zip(fl[1:], want[1:])]
+            const = all(abs(r - rr[0]) <= 1e-9 * abs(rr[0]) for r in rr)
+            N_ = m['N']
+            sym = 'hz-rescaled-twice' if const and any(abs(rr[0] - t) <= 1e-9 for t in (1.0, N_ / (N_ - 1.0), 0.5)) else 'grid'
         elif banded:
             sym = 'band-grid'
         out.append(('%s/%s' % (pre, sym), '%s: entry %d is %r, bin frequency k*Fs/N is %r (Fs=%s, N=%d)' % (
@@ -321,18 +330,23 @@ def judge(m, res):
         sp = np.abs(np.asarray(spec, dtype=float))
         k0, N, Fs = m['k0'], m['N'], fs_true(m)
         if m.get('centroid'):
-            w = sp / sp.sum()
-            got = float(np.dot(w, np.asarray(fl)))
+            j = int(np.argmax(sp))
+            lo, hi = max(0, j - 3), min(len(sp), j + 4)
+            w = sp[lo:hi] / sp[lo:hi].sum()
+            got = float(np.dot(w, np.asarray(fl[lo:hi])))
             target = float(Fr(k0) * Fs / N)
             if abs(got - target) > 0.12 * float(Fs) / N:
                 out.append((pre + '/peak', '%s: sinusoid on bin %d of %d (true %r Hz) has its spectral centroid at reported %r Hz' % (name, k0, N, target, got)))
         else:
             j = int(np.argmax(sp))
-            target = Fr(k0 - (N // 2 if False else 0)) * Fs / N
+            targets = [Fr(k0) * Fs / N]
             if kind == 'shift':
-                target = Fr(k0 if k0 < (N + 1) // 2 else k0 - N) * Fs / N
-            if abs(Fr(fl[j]) - target) > Fr(4 * ulp(max(abs(fl[j]), abs(float(target))))) + (Fr(4 * ulp(float(Fs))) if kind == 'shift' else 0):
-                out.append((pre + '/peak', '%s: sinusoid on bin %d of %d (true %r Hz) peaks at reported %r Hz' % (name, k0, N, float(target), fl[j])))
+                targets = [Fr(k0 if k0 < (N + 1) // 2 else k0 - N) * Fs / N]
+            elif kind == 'two' and not m.get('complex'):
+                targets.append(Fr(N - k0) * Fs / N)          # a real sinusoid has its mirror peak at N-k0
+            slack = Fr(4 * ulp(float(Fs))) if kind == 'shift' else 0
+            if not any(abs(Fr(fl[j]) - t) <= Fr(4 * ulp(max(abs(fl[j]), abs(float(t))))) + slack for t in targets):
+                out.append((pre + '/peak', '%s: sinusoid on bin %d of %d (true %r Hz) peaks at reported %r Hz' % (name, k0, N, float(targets[0]), fl[j])))
     return out
 
 
@@ -342,6 +356,8 @@ def gen_meta(rng, name, tier):
     m = {'call': name, 'dseed': rng.randint(0, 10**6)}
     big = tier == 'thorough'
     n = rng.randint(4, 64 if big else 28)
+    if 'multi_taper' in name:
+        n = max(n, 10 if '.' not in name else 18)
     if rng.random() < 0.5:
         n |= 1                                         # odd lengths as often as even ones
     else:
@@ -422,7 +438,6 @@ def gen_meta(rng, name, tier):
         N = m['N']
         if 'multi_taper' in name:
             if m['n'] >= 16:
-                m['k0'] = rng.randint(N // 3, N // 2 - 3)
                 m['centroid'] = True
                 m['NFFT'] = None
                 m['N'] = m['n']
@@ -461,7 +476,7 @@ def make_case(m):
 
 
 def cases(rng, tier, seed):
-    per = {'quick': 10, 'thorough': 150}[tier]
+    per = {'quick': 30, 'thorough': 400}[tier]
     out = []
     # minimal failing inputs of the recorded findings first (regression corpus)
     for m in CORPUS:
@@ -469,18 +484,23 @@ def cases(rng, tier, seed):
     for name in CALLS:
         k = per if 'multi_taper' not in name and 'Granger' not in name else max(4, per // 2)
         for _ in range(k):
-            out.append(make_case(gen_meta(rng, name, tier)))
+            c = None
+            for _try in range(6):      # a call that raises for reasons outside C05 (dpss on tiny n, …) is redrawn
+                c = make_case(gen_meta(rng, name, tier))
+                if not isinstance(c._res, str):
+                    break
+            out.append(c)
     return out
 
 
 CORPUS = [
     {'call': 'periodogram_csd/twosided', 'n': 4, 'N': 4, 'NFFT': None, 'sides': 'twosided', 'Fs': f2x(10.0), 'dseed': 0},
     {'call': 'periodogram_csd/onesided', 'n': 5, 'N': 5, 'NFFT': None, 'sides': 'onesided', 'Fs': f2x(10.0), 'dseed': 0},
-    {'call': 'multi_taper_psd/onesided', 'n': 5, 'N': 5, 'NFFT': None, 'sides': 'onesided', 'Fs': f2x(10.0), 'dseed': 0},
-    {'call': 'multi_taper_csd/onesided', 'n': 5, 'N': 5, 'NFFT': None, 'sides': 'onesided', 'Fs': f2x(10.0), 'dseed': 0},
+    {'call': 'multi_taper_psd/onesided', 'n': 9, 'N': 9, 'NFFT': None, 'sides': 'onesided', 'Fs': f2x(10.0), 'dseed': 0},
+    {'call': 'multi_taper_csd/onesided', 'n': 9, 'N': 9, 'NFFT': None, 'sides': 'onesided', 'Fs': f2x(10.0), 'dseed': 0},
     {'call': 'get_freqs', 'n': 5, 'N': 5, 'Fs': f2x(10.0), 'dseed': 0},
-    {'call': 'get_spectra/multi_taper_csd/onesided', 'n': 8, 'N': 8, 'NFFT': None, 'sides': 'onesided', 'Fs': f2x(10.0), 'dseed': 0},
-    {'call': 'CoherenceAnalyzer.frequencies/multi_taper_csd', 'n': 8, 'N': 8, 'Fs': f2x(10.0), 'unit': 'ms', 'interval': 100.0, 'dseed': 0},
+    {'call': 'get_spectra/periodogram_csd/onesided', 'n': 4, 'N': 4, 'NFFT': None, 'sides': 'onesided', 'Fs': f2x(10.0), 'dseed': 0},
+    {'call': 'CoherenceAnalyzer.frequencies/periodogram_csd', 'n': 4, 'N': 4, 'Fs': f2x(10.0), 'unit': 'ms', 'interval': 100.0, 'dseed': 0},
     {'call': 'cache_fft', 'n': 23, 'N': 5, 'Fs': f2x(10.0), 'lb': f2x(1.0), 'ub': f2x(4.1), 'dseed': 0},
     {'call': 'MTCoherenceAnalyzer.frequencies', 'n': 5, 'N': 5, 'Fs': f2x(10.0), 'unit': 's', 'dseed': 0},
     {'call': 'SNRAnalyzer.mt_frequencies', 'n': 5, 'N': 5, 'Fs': f2x(10.0), 'unit': 's', 'dseed': 0},
